@@ -22,8 +22,8 @@ import render
 from common import Check, run_tlc, run_oalv_parallel
 
 K = 4
-FAMILIES = {"quick": ["ranges", "uris", "xfers", "schemas", "recinst", "dynscope", "recgraphs2", "fnpos"],
-            "thorough": ["ranges", "uris", "xfers", "schemas", "recinst", "dynscope", "recgraphs2", "fnpos", "posshape"]}
+FAMILIES = {"quick": ["ranges", "uris", "xfers", "schemas", "recinst", "dynscope", "annots", "recgraphs2", "fnpos"],
+            "thorough": ["ranges", "uris", "xfers", "schemas", "recinst", "dynscope", "annots", "recgraphs2", "fnpos", "posshape"]}
 
 
 def compare_members(chk, fam, members, cases, obs):
@@ -47,6 +47,9 @@ def compare_members(chk, fam, members, cases, obs):
         key = "C02|" + "+".join(kinds[:3])
         if "two-resources-one-path" in kinds:
             key = "C02|two-resources-one-path"
+        elif c.get("label") and len(c["label"]) == 4:
+            # the Annots family: how the annotated value is supplied and where it is annotated again
+            key += "|via=%s|use=%s" % (c["label"][2], c["label"][3])
         chk.violation(key, "%s: %s; program %r" % (fam, diffs[0][1][:300], text[:200]), {"files": hc["files"], "family": fam, "differences": diffs[:6]})
     return total, compared, same
 
